@@ -566,26 +566,24 @@ class PythonTubeSolver(TubeSolver):
               tube:     tube object for geometry
 
             Additional parameters:
-              tol:      thickness tolerance for finding faces
+              tol:      tolerance for finding the nodes on the inner
+                        surface, as a fraction of the radial element size
             """
-            atol = tol * tube.t
+            atol = tol * tube.t / (tube.nr - 1)
             if self.ndim == 1:
-                self.mesh = self.mesh.with_boundaries(
-                    {
-                        "pressure": lambda x: np.logical_and(
-                            x > tube.r - tube.t - atol, x < tube.r - tube.t + atol
-                        )
-                    }
-                )
+                rnode = np.abs(self.mesh.p[0])
             else:
-                self.mesh = self.mesh.with_boundaries(
-                    {
-                        "pressure": lambda x: np.logical_and(
-                            np.sqrt(x[0] ** 2.0 + x[1] ** 2.0) > tube.r - tube.t - atol,
-                            np.sqrt(x[0] ** 2.0 + x[1] ** 2.0) < tube.r - tube.t + atol,
-                        )
-                    }
-                )
+                rnode = np.sqrt(self.mesh.p[0] ** 2.0 + self.mesh.p[1] ** 2.0)
+            inner = np.abs(rnode - (tube.r - tube.t)) < atol
+
+            # The pressure acts on the boundary facets that lie on the inner
+            # surface, i.e. those with all of their nodes at the inner radius.
+            # (The midpoint of a flat facet sits inside the inner radius and
+            # the midpoints of end-face facets can be close to it, so the
+            # midpoint alone does not identify the surface.)
+            self.mesh = self.mesh.with_boundaries(
+                {"pressure": lambda x: np.all(inner[self.mesh.facets], axis=0)}
+            )
 
         def define_scalar_basis(self):
             """
